@@ -93,12 +93,27 @@ def main():
                 m = re.search(r"(pkg|cmd|analysis|zz_seed_demo)[\w/\.\-]*", head)
                 rel = None
                 if df.endswith("_test.go"):
-                    m2 = re.search(r"((?:pkg|cmd|analysis)/[\w/\-\.]+)", head)
-                    if m2:
+                    pm = re.search(r"^package\s+(\w+)", head, re.M)
+                    pkgname = pm.group(1) if pm else ""
+                    cands = []
+                    for m2 in re.finditer(r"((?:pkg|cmd|analysis)(?:/[\w\-\.]+)*)", head):
                         d = m2.group(1).rstrip("/.")
                         if d.endswith(".go"):
                             d = os.path.dirname(d)
-                        rel = os.path.join(d, os.path.basename(df))
+                        if os.path.isdir(os.path.join(wt, d)):
+                            cands.append(d)
+                    # the directory whose Go package is the demo's package (a directory named like it, or one
+                    # whose files declare it)
+                    def declares(d):
+                        for fn in os.listdir(os.path.join(wt, d)):
+                            if fn.endswith(".go") and not fn.endswith("_test.go"):
+                                mm = re.search(r"^package\s+(\w+)", open(os.path.join(wt, d, fn), errors="replace").read(3000), re.M)
+                                return bool(mm) and mm.group(1) == pkgname.replace("_test", "")
+                        return False
+                    good = [d for d in cands if declares(d)]
+                    pick = good[0] if good else (cands[0] if cands else None)
+                    if pick:
+                        rel = os.path.join(pick, os.path.basename(df))
                 if rel is None:
                     relp = os.path.relpath(df, os.path.join(dest, "demo"))
                     rel = relp if os.path.dirname(relp) else os.path.join("zz_seed_demo", relp)
